@@ -307,14 +307,28 @@ func RunWorker(t *testing.T, job *Job) *WorkerResult {
 		}
 	case "explore":
 		ctx := &CaseCtx{Job: job, Emit: c.emit, Quick: job.Tier == "quick", Stop: func() bool { return time.Now().After(c.deadline) }}
+		lastFlush := time.Now()
 		for idx := job.Worker; idx < job.Cases; idx += job.Workers {
 			if ctx.Stop() {
 				break
 			}
 			c.caseIdx = idx
+			// a fatal error of the Go runtime (concurrent map writes, unlock of
+			// unlocked mutex ...) provoked by the interpreter kills the process:
+			// the driver finds the case in the progress file
+			_ = os.WriteFile(job.Out+".progress", []byte(fmt.Sprint(idx)), 0o644)
 			def.Case(t, ctx, idx)
 			res.Cases++
+			if time.Since(lastFlush) > 5*time.Second {
+				lastFlush = time.Now()
+				res.Distinct = len(c.hashes)
+				res.WallS = time.Since(t0).Seconds()
+				if b, err := json.Marshal(res); err == nil {
+					_ = os.WriteFile(job.Out+".partial", b, 0o644)
+				}
+			}
 		}
+		_ = os.Remove(job.Out + ".progress")
 	case "determinism":
 		var log strings.Builder
 		ctx := &CaseCtx{Job: job, Quick: true, Stop: func() bool { return false }}
